@@ -98,9 +98,15 @@ var c12Sites = map[string][]string{
 
 const c12WriteSite = "mappollard.Write:in-node-loop"
 
+// c12VerifySite suspends a concurrent Verify(remember=true) caller inside the
+// verification phase (it is the row-advance hook of calculateHashes); a writer
+// step is started during the suspension and must wait until the verifier has
+// also finished remembering.
+const c12VerifySite = "calculateHashes:row-advance"
+
 var c12AllSites = []string{"mappollard.Modify:between-remove-and-add", "mappollard.add:after-single-add", "mappollard.Undo:between-undoAdd-and-undoDeletion",
 	"mappollard.Undo:before-root-rewrite", "mappollard.ingest:between-proof-and-intermediates", "mappollard.Prune:after-uncache",
-	"mappollard.Read:after-header", "mappollard.Read:in-node-loop", c12WriteSite}
+	"mappollard.Read:after-header", "mappollard.Read:in-node-loop", c12WriteSite, c12VerifySite}
 
 func siteFits(site, kind string) bool {
 	for _, x := range c12Sites[kind] {
@@ -133,6 +139,9 @@ func c12Gen(c *core.Ctx) c12Scenario {
 		if site == "mappollard.Prune:after-uncache" && cfg.Kind == "mapfull" {
 			cfg = InstCfg{"mappartial", []uint8{0, 2, 63}[r.Intn(3)]} // Prune is a no-op on a full forest
 		}
+		if site == c12VerifySite && cfg.Kind != "mapfull" {
+			cfg = InstCfg{"mapfull", []uint8{0, 3, 63}[r.Intn(3)]} // remembering is observationally neutral only on a full forest
+		}
 	}
 	prof := gen.Tiny
 	prof.RememberMode = 1
@@ -159,7 +168,10 @@ func c12Gen(c *core.Ctx) c12Scenario {
 	}
 	if c.Suite == "race" {
 		s.Readers = []int{2, 4, 8, 16}[r.Intn(4)]
-		s.PerRdr = 120
+		s.PerRdr = 640 / s.Readers // short histories: linearizability checking cost climbs steeply with size
+		if s.PerRdr > 120 {
+			s.PerRdr = 120
+		}
 		return s
 	}
 	s.Readers = 0
@@ -352,6 +364,8 @@ type c12Query struct {
 
 func (q *c12Query) String() string {
 	switch q.Kind {
+	case "verify-remember":
+		return fmt.Sprintf("verify-remember(%s, %s)", hashesStr(q.Hashes), proofStr(q.Proof))
 	case "prove", "leafpos", "leafposs":
 		return fmt.Sprintf("%s(%s)", q.Kind, hashesStr(q.Hashes))
 	case "verify":
@@ -419,7 +433,7 @@ func c12MkQuery(rng *rand.Rand, p *c12Plan, kind string, j int) *c12Query {
 		if q.Hashes == nil {
 			q.Kind = "roots"
 		}
-	case "verify":
+	case "verify", "verify-remember":
 		q.Hashes = pickLive(rng, r, 1+rng.Intn(4))
 		if q.Hashes == nil {
 			q.Kind = "stump"
@@ -489,6 +503,11 @@ func c12Exec(mp *u.MapPollard, cfg InstCfg, q *c12Query) string {
 			return "err"
 		}
 		return "ok"
+	case "verify-remember":
+		if err := mp.Verify(cloneHashes(q.Hashes), cloneProof(q.Proof), true); err != nil {
+			return "err"
+		}
+		return "ok"
 	case "leafpos":
 		pos, ok := mp.GetLeafPosition(q.Hashes[0])
 		if !ok {
@@ -552,7 +571,14 @@ func c12Legal(p *c12Plan, cfg InstCfg, k int, q *c12Query, out string) bool {
 			return out == want
 		}
 		return out == "err" || out == want // partial forest, a requested leaf is not remembered
-	case "verify":
+	case "verify", "verify-remember":
+		for _, t := range q.Proof.Targets {
+			if t > uint64(1)<<(r.F.H+1)-2 {
+				// the proof was drawn from a taller state; a map forest with spare
+				// allocated rows reads such a target in its own geometry: not judged (D19)
+				return true
+			}
+		}
 		_, err := u.Verify(r.Stump, cloneHashes(q.Hashes), cloneProof(q.Proof))
 		if err != nil {
 			return out == "err"
@@ -586,10 +612,14 @@ func c12Legal(p *c12Plan, cfg InstCfg, k int, q *c12Query, out string) bool {
 		}
 		return out == zero || out == hx(nd.Hash)[:16]
 	case "missing":
-		pp, ok := r.F.CanonProofPos(q.Targets)
-		if !ok {
-			return true // some target holds no node in this state: not judged
+		for _, t := range q.Targets {
+			if nd := r.F.Nodes[t]; nd == nil || nd.Leaf < 0 {
+				// the targets were drawn from another state; here one of them holds no
+				// leaf (no node, or an internal node, i.e. nested targets): not judged
+				return true
+			}
 		}
+		pp, _ := r.F.CanonProofPos(q.Targets)
 		if full {
 			return out == "[]"
 		}
@@ -762,6 +792,10 @@ func c12Run(c *core.Ctx, s c12Scenario) {
 				switch {
 				case ps.Site == c12WriteSite:
 					if len(p.refs[i].F.Nodes) > 0 {
+						cand = append(cand, i+1)
+					}
+				case ps.Site == c12VerifySite:
+					if (st.Kind == "modify" || st.Kind == "undo") && len(p.refs[i].Live) >= 2 && p.refs[i].F.N >= 2 {
 						cand = append(cand, i+1)
 					}
 				case ps.Site == "mappollard.add:after-single-add":
@@ -942,7 +976,7 @@ func c12Run(c *core.Ctx, s c12Scenario) {
 
 func queryMethod(kind string) string {
 	return map[string]string{"roots": "GetRoots", "stump": "GetStump", "numleaves": "GetNumLeaves", "treerows": "GetTreeRows", "prove": "Prove", "verify": "Verify",
-		"leafpos": "GetLeafPosition", "leafposs": "GetLeafHashPositions", "gethash": "GetHash", "missing": "GetMissingPositions", "write": "Write"}[kind]
+		"verify-remember": "Verify(remember)", "leafpos": "GetLeafPosition", "leafposs": "GetLeafHashPositions", "gethash": "GetHash", "missing": "GetMissingPositions", "write": "Write"}[kind]
 }
 
 func stepsStr(p *c12Plan, steps []c12Ev) string {
@@ -995,7 +1029,7 @@ func c12Porcupine(p *c12Plan, cfg InstCfg, evs []c12Ev) (porcupine.CheckResult, 
 	for _, e := range evs {
 		ops = append(ops, porcupine.Operation{ClientId: e.Client, Input: c12In{Step: e.Step, Q: e.Q}, Call: e.Call, Output: e.Out, Return: e.Ret})
 	}
-	return porcupine.CheckOperationsVerbose(model, ops, 60*time.Second)
+	return porcupine.CheckOperationsVerbose(model, ops, 180*time.Second)
 }
 
 // ---------------------------------------------------------------------------
@@ -1020,6 +1054,9 @@ func c12Free(r *c12Run_, rb []byte) {
 				kind := c12Kinds[rng.Intn(len(c12Kinds))]
 				if kind == "write" && rng.Intn(3) > 0 {
 					kind = "numleaves"
+				}
+				if r.s.Cfg.Kind == "mapfull" && rng.Intn(6) == 0 {
+					kind = "verify-remember" // a second mutator; observationally neutral on a full forest
 				}
 				r.doQuery(id+1, c12MkQuery(rng, r.p, kind, j))
 				if rng.Intn(4) == 0 {
@@ -1085,15 +1122,20 @@ func c12Paused(r *c12Run_, rb []byte, ps c12Pause) *pauseResult {
 			close(stepDone)
 		}()
 	}
-	writeSite := ps.Site == c12WriteSite
+	writeSite := ps.Site == c12WriteSite || ps.Site == c12VerifySite
 	firstDone := make(chan struct{})
 	if writeSite {
-		// a serializing reader is the one that gets suspended
+		// not the writer but a serializing reader (Write) or a concurrent
+		// Verify(remember=true) caller is the one that gets suspended
+		side := &c12Query{Kind: "write", J: ps.Step - 1}
+		if ps.Site == c12VerifySite {
+			side = c12MkQuery(rng, r.p, "verify-remember", ps.Step-1)
+		}
 		wg.Add(1)
 		go func() {
 			defer wg.Done()
 			defer close(firstDone)
-			r.doQuery(99, &c12Query{Kind: "write", J: ps.Step - 1})
+			r.doQuery(99, side)
 		}()
 	} else {
 		startStep()
@@ -1127,7 +1169,7 @@ func c12Paused(r *c12Run_, rb []byte, ps c12Pause) *pauseResult {
 		var returned atomic.Int32
 		nq := 0
 		for ci, kind := range c12Kinds {
-			if writeSite && kind == "write" {
+			if ps.Site == c12WriteSite && kind == "write" {
 				continue
 			}
 			q := c12MkQuery(rng, r.p, kind, clampState(ps.Step-1+rng.Intn(2), n))
